@@ -96,13 +96,19 @@ pub trait Deserialize: DeserializeInner {
         // SAFETY: the entire vector will be filled with data read from the file,
         // or with zeroes if the file is shorter than the vector.
         #[allow(invalid_value)]
-        let mut aligned_vec = unsafe {
-            <Vec<MemoryAlignment>>::from_raw_parts(
-                std::alloc::alloc(std::alloc::Layout::from_size_align(capacity, align_to)?)
-                    as *mut MemoryAlignment,
-                capacity / align_to,
-                capacity / align_to,
-            )
+        let mut aligned_vec = if capacity == 0 {
+            // Allocating zero bytes is undefined behavior (and the block
+            // would never be freed).
+            Vec::new()
+        } else {
+            unsafe {
+                <Vec<MemoryAlignment>>::from_raw_parts(
+                    std::alloc::alloc(std::alloc::Layout::from_size_align(capacity, align_to)?)
+                        as *mut MemoryAlignment,
+                    capacity / align_to,
+                    capacity / align_to,
+                )
+            }
         };
 
         let bytes = unsafe {
